@@ -13,11 +13,13 @@ import (
 	"path/filepath"
 	"strings"
 	"sync"
+	"sync/atomic"
 	"time"
 
 	"github.com/ansible/receptor/pkg/controlsvc"
 	"github.com/ansible/receptor/pkg/netceptor"
 	"github.com/ansible/receptor/pkg/services"
+	"github.com/ansible/receptor/pkg/verifhook"
 	"verif/harness/memnet"
 	"verif/harness/mesh"
 )
@@ -389,6 +391,56 @@ func faultCounters(m *mesh.Mesh) map[string]int {
 	return c
 }
 
+// injectNotices: while a transfer runs, a third node (a transit node when there is one) sends the two ends of the
+// stream "unreachable" notices about the stream's own addresses with a TRANSIENT problem ('message expired': a
+// datagram used up its hop budget in a momentary forwarding loop; 'blocked by firewall'). monitorUnreachable on
+// both ends sees them; only 'service unknown' may end a stream. Each notice is logged for StreamTrace.tla.
+func injectNotices(m *mesh.Mesh, lg *ioLog, rng *rand.Rand, via, dialNode, dialSvc, accNode, accSvc string, stop chan struct{}) {
+	send := func(target string, um netceptor.UnreachableMessage, dir string) {
+		b, _ := json.Marshal(um)
+		lg.add(ioLine{Ev: "notice", Dir: dir, Note: um.Problem})
+		_ = m.Nodes[via].N.SendMessageWithHopsToLive("unreach", target, "unreach", b, 10)
+	}
+	go func() {
+		// wait until data is flowing
+		waitUntil(30*time.Second, time.Millisecond, func() bool {
+			lg.mu.Lock()
+			defer lg.mu.Unlock()
+			for _, l := range lg.lines {
+				if l.Ev == "r" {
+					return true
+				}
+			}
+
+			return false
+		})
+		for i := 0; i < 24; i++ {
+			select {
+			case <-stop:
+				return
+			case <-time.After(time.Duration(500+rng.Intn(6000)) * time.Microsecond):
+			}
+			problem := netceptor.ProblemExpiredInTransit
+			if i%3 == 2 {
+				problem = netceptor.ProblemRejected
+			}
+			// to the accepting node: "your datagrams from the listener's service to the dialler's socket ..."
+			send(accNode, netceptor.UnreachableMessage{FromNode: accNode, FromService: accSvc, ToNode: dialNode, ToService: dialSvc, Problem: problem}, "ba")
+			// and the mirror image to the dialling node
+			send(dialNode, netceptor.UnreachableMessage{FromNode: dialNode, FromService: dialSvc, ToNode: accNode, ToService: accSvc, Problem: problem}, "ab")
+		}
+	}()
+}
+
+func svcOf(a net.Addr) string {
+	p := strings.SplitN(a.String(), ":", 2)
+	if len(p) == 2 {
+		return p[1]
+	}
+
+	return ""
+}
+
 func meshStream(m *mesh.Mesh, from, to, svc string) (d, a *netceptor.Conn, li *netceptor.Listener, err error) {
 	li, err = m.Nodes[to].N.ListenAndAdvertise(svc, nil, nil)
 	if err != nil {
@@ -450,6 +502,11 @@ func runDirect(o c03opts, tp topo, variant string, idx int64) scenarioOut {
 	}
 	out.Spec = sp
 	lg := &ioLog{}
+	via := tp.ids[len(tp.ids)/2]
+	if tp.cut != "" {
+		via = tp.to // the transit nodes are being re-routed: the accepting node itself relays the notices
+	}
+	injectNotices(m, lg, rand.New(rand.NewSource(rng.Int63())), via, tp.from, svcOf(d.LocalAddr()), tp.to, "sink", stop)
 	if tp.cut != "" {
 		// cut the link on the active path once a part of the data has gone through
 		go func() {
@@ -581,6 +638,7 @@ func runConnect(o c03opts, idx int64, variant string) scenarioOut {
 	}
 	out.Spec = sp
 	lg := &ioLog{}
+	injectNotices(m, lg, rand.New(rand.NewSource(rng.Int63())), "b", "a", svcOf(ac.RemoteAddr()), "c", "sink", stop)
 	r := runTransfer(lg, sp, sockEnd(uc, br), meshEnd(ac.(*netceptor.Conn)), o.seed*131+idx, o.ceiling)
 	_ = uc.Close()
 	_ = ac.(*netceptor.Conn).CloseConnection()
@@ -685,6 +743,14 @@ func cmdC03(args []string) {
 	_ = fs.Parse(args)
 	res := &Result{Counters: map[string]int{}, Extra: map[string]any{}}
 	defer res.write(*outPath)
+	// anti-vacuity: count the injected notices that a stream's own socket accepted as its own (hook event unr_socket)
+	var unrSeen atomic.Int64
+	verifhook.SetSink(func(r verifhook.Record) {
+		if r["ev"] == "unr_socket" {
+			unrSeen.Add(1)
+		}
+	})
+	defer func() { res.Counters["notices_seen_by_stream_sockets"] = int(unrSeen.Load()) }()
 	o := c03opts{seed: *seed, total: *total, maxChunk: 256 << 10, ceiling: *ceiling, lossMax: 12, dir: *dir}
 	type job struct {
 		name string
@@ -774,6 +840,9 @@ func cmdC03(args []string) {
 		}
 		for _, l := range so.Lines {
 			_ = enc.Encode(l)
+			if l.Ev == "notice" {
+				res.count("notices_injected")
+			}
 			if l.Ev == "w" || l.Ev == "r" {
 				res.Evaluations++
 				distinct[fmt.Sprintf("%s/%s/%s/%d/%d", so.Name, l.Ev, l.Dir, l.Off, l.Len)] = true
